@@ -16,7 +16,7 @@ Hypotheses of the `_partial` theorems:
   whenever the semantics converts it at all;
 * `h8 E e = true` — the decidable condition of `C08/Model.lean`, computed by the driver (`c08.h`):
   it excludes exactly the places where darklua's primitive DISAGREES with Lua on doubles
-  (F3 number formatting under `..`, F4 interpolation of an undetermined value; F1/F2 ε-equality is fixed)
+  (F3 number formatting under `..`; F1/F2 ε-equality and F4 interpolation of an undetermined value are fixed)
   and reference equality of two fresh tables/functions across an effectful operand.
 The `_full` statements (no `h8`) are refuted by concrete witnesses (`_full_false`).
 -/
@@ -255,28 +255,9 @@ def pure_sound_full : Prop :=
       (vs : List (Val N)),
       hasSideEffects E false e = false → evalE call ρ k env e σ = .ok vs σ' → σ'.trace = σ.trace
 
-/-- the state of the F4 witness: global `x` is table 0 whose metatable (table 1) has
-`__tostring` = the external function `emit` -/
-def σ4 : State toyN :=
-  { globals := [("x", .tbl 0)], cells := [],
-    tables := [⟨[], some 1⟩, ⟨[(strVal "__tostring", .builtin "emit")], none⟩],
-    closures := [], trace := [] }
-
-/-- F4: `` `{x}` `` is declared side-effect free, yet evaluating it calls `x`'s `__tostring` -/
-theorem pure_sound_full_false : ¬ pure_sound_full := by
-  intro h
-  have := h toyN toyE toy_agree call0 ρ0 2 ⟨[], []⟩ (.interp [.v (.var "x")]) σ4
-    { σ4 with trace := [⟨"emit", [.tbl []]⟩] } [.str []] rfl
-    (by
-      simp [evalE, evalSegs, Res.bind, lookupVar, lookupAssoc, State.getGlobal, σ4, first, tostringVal,
-        State.metamethod, State.metaOf, State.getTable, State.rawGet, rawGetEntries, rawEq, callVal, libNames,
-        State.canon, canonAux, ρ0, strVal])
-  simp [σ4] at this
-
-
 /-- F3 reaches the side-effect analysis: `((0 .. "") ~= "\x01") and f()` is declared side-effect free
 (the folded left operand "evaluates" to `false`), yet execution calls `f` -/
-theorem pure_sound_full_false_F3 : ¬ pure_sound_full := by
+theorem pure_sound_full_false : ¬ pure_sound_full := by
   intro h
   have := h toyN toyE toy_agree call0 ρ0 2 ⟨[], []⟩
     (.bin .and (.bin .ne (.bin .concat (.num 0) (.str [])) (.str [1])) (.call (.var "f") none .tuple []))
@@ -286,6 +267,9 @@ theorem pure_sound_full_false_F3 : ¬ pure_sound_full := by
       simp [evalE, evalEs, Res.bind, binopVal, rawEq, toStringPrim?, toyN, first, Val.truthy, lookupVar,
         lookupAssoc, State.getGlobal, σ0, callVal, libNames, ρ0])
   simp [σ0] at this
+
+-- regression (F4, fixed): an interpolated value the evaluator cannot determine now counts as a side effect
+example : hasSideEffects toyE false (.interp [.v (.var "x")]) = true := rfl
 
 -- regression (F1 reaching purity, fixed): `(0 ~= 1) and f()` is now declared effectful
 example : hasSideEffects toyE false
